@@ -304,6 +304,26 @@ func c06Run(w *verifrt.World, tier Tier) *RunResult {
 				continue
 			}
 			if clause, detail := c05Diff(refs[sp.ID], r.out); clause != "" {
+				if multiphaseBuild && !res.Tainted {
+					// multiphase build: is the difference the one between the first
+					// transaction a WAF serves and every later one?  The same script
+					// alone, twice on a fresh WAF: if the two outcomes differ and the
+					// concurrent one equals either, no interleaving is involved.
+					w.PoolPolicy = verifrt.PoolNew
+					if hh, err := buildWAF(text); err == nil {
+						hh.Concurrent = true
+						o1 := runTx(hh, sp)
+						o2 := runTx(hh, sp)
+						hh.Close()
+						c12, _ := c05Diff(o1, o2)
+						ca, _ := c05Diff(o1, r.out)
+						cb, _ := c05Diff(o2, r.out)
+						if c12 != "" && (ca == "" || cb == "") {
+							res.fail("C06", "first-transaction-differs", "multiphase-build", "transaction %s alone on a fresh WAF gives one outcome as the first transaction the WAF serves and another as a later one (no concurrency involved); the concurrent outcome equals one of them\nfirst: %s\nlater: %s\nconfiguration:\n%s", sp.ID, jsonOf(o1), jsonOf(o2), text)
+							continue
+						}
+					}
+				}
 				res.fail("C06", "outcome-differs-from-alone", clause, "transaction %s: %s\nalone:      %s\nconcurrent: %s\n(%s)\nconfiguration:\n%s", sp.ID, detail, jsonOf(refs[sp.ID]), jsonOf(r.out), sched, text)
 			}
 		}
